@@ -545,7 +545,8 @@ static int attr_get_with_type(struct xcm_socket *s, const char *name,
     int rc = xcm_attr_get(s, name, &actual_type, value, capacity);
 
     if (rc < 0) {
-	if (errno == EOVERFLOW)
+	if (errno == EOVERFLOW && required_type != xcm_attr_type_str &&
+	    required_type != xcm_attr_type_bin)
 	    errno = ENOENT; /* wrong type */
 	return -1;
     }
